@@ -116,6 +116,7 @@ type checkOpts struct {
 	strict     bool
 	solver     string
 	cross      string
+	crossEvery int
 	filter     string
 	verbose    bool
 	timeout    int
@@ -253,7 +254,7 @@ func runCheck(id string, o checkOpts) int {
 		go func() {
 			defer wg.Done()
 			in := NewInterp(p)
-			s, err := NewSolver(o.solver, in.tb, o.timeout)
+			s, err := newCheckSolver(o, in.tb)
 			if err != nil {
 				mu.Lock()
 				engineErr = err
@@ -272,7 +273,7 @@ func runCheck(id string, o checkOpts) int {
 							// the interpreter state may be corrupt: start afresh
 							in.solver.Close()
 							in = NewInterp(p)
-							ns, err := NewSolver(o.solver, in.tb, o.timeout)
+							ns, err := newCheckSolver(o, in.tb)
 							if err == nil {
 								in.solver = ns
 							}
@@ -282,7 +283,7 @@ func runCheck(id string, o checkOpts) int {
 					r := in.RunConfig(cfgs[i], maxPaths, dl)
 					if in.solver.dead {
 						in.solver.Close()
-						ns, err := NewSolver(o.solver, in.tb, o.timeout)
+						ns, err := newCheckSolver(o, in.tb)
 						if err == nil {
 							in.solver = ns
 						}
@@ -577,6 +578,7 @@ func runCheck(id string, o checkOpts) int {
 			"assertions_decided_syntactically":   tot.triv,
 			"queries":                            map[string]int{"total": tot.q, "unsat": tot.unsat, "sat": tot.sat, "unknown": tot.unk},
 			"solver":                             o.solver,
+			"cross_solver":                       crossEvidence(o),
 			"solver_s":                           tot.solverS,
 			"load_s":                             loadS,
 			"vacuous_configs":                    tot.vacuous,
@@ -653,4 +655,27 @@ func evidenceDir() string {
 		return d
 	}
 	return filepath.Join(verifDir, "evidence")
+}
+
+// newCheckSolver starts the deciding solver of a worker and, with --cross, the second solver.
+func newCheckSolver(o checkOpts, tb *TB) (*Solver, error) {
+	s, err := NewSolver(o.solver, tb, o.timeout)
+	if err != nil {
+		return nil, err
+	}
+	if o.cross != "" && o.cross != o.solver {
+		if err := s.AttachCross(o.cross, o.crossEvery, o.timeout); err != nil {
+			s.Close()
+			return nil, err
+		}
+	}
+	return s, nil
+}
+
+func crossEvidence(o checkOpts) map[string]any {
+	if o.cross == "" {
+		return map[string]any{"enabled": false}
+	}
+	return map[string]any{"enabled": true, "second_solver": o.cross, "every_nth_definite_verdict": o.crossEvery,
+		"compared": crossCompared, "agreed": crossAgreed, "disagreed": crossDisagreed, "second_solver_unknown": crossSecondUnknown}
 }
